@@ -634,7 +634,12 @@ fn moving_index(rep: &mut Report, root: &std::path::Path) {
     let r0 = wk0.run(&s0);
     let n_reads = std::fs::read_to_string(wk0.dir.join("shim.log")).unwrap_or_default().lines().filter(|l| l.starts_with("R ") && l.contains(" read ")).count();
     if !r0.ok() || n_reads == 0 {
-        return rep.machinery(format!("moving index: numbering run failed (exit {:?}, {} reads)", r0.code, n_reads));
+        // the undisturbed run over index A is wrong on this tree: the other families judge such runs (same chain, same oracle);
+        // without a fault-free read sequence this family cannot be built
+        rep.count("note:moving-index:undisturbed-run-failed-or-read-nothing", 1);
+    rep.exhaustive = false;
+        rep.not_covered.push(format!("index replaced while running: the undisturbed run fails or reads no block on this tree (exit {:?}, {} reads); family not run", r0.code, n_reads));
+        return;
     }
     drop(wk0);
     let mut cases = Vec::new();
